@@ -215,6 +215,65 @@ class Evaluator:
         if k == 'StringLiteral':
             return n.get('v')
         # iterators as (container rendering, position); std range algorithms with a one-parameter lambda
+        if k == 'CXXMemberCallExpr' and n['callee']['name'] in ('begin', 'cbegin', 'end', 'cend') and n['callee'].get('classq') == 'std::basic_string' and n.get('obj') is not None:
+            sv = self.ev(n['obj'])
+            if isinstance(sv, str):
+                # a string whose value the model knows: iterator = (value, position)
+                return ('sit', sv, 0 if n['callee']['name'] in ('begin', 'cbegin') else len(sv))
+        if k == 'CallExpr' and n.get('callee', {}).get('qname') in ('toupper', 'std::toupper', 'tolower', 'std::tolower') and len(fn.call_args(n)) == 1:
+            v = self.ev(fn.strip(fn.call_args(n)[0], 'all'))
+            if isinstance(v, int) and not isinstance(v, bool) and 0 <= v < 128:
+                ch_ = chr(v)
+                return ord(ch_.upper() if 'upper' in n['callee']['qname'] else ch_.lower())
+            return None
+        if k == 'CallExpr' and n.get('callee', {}).get('qname') == 'std::equal' and len(fn.call_args(n)) in (3, 4, 5):
+            args = fn.call_args(n)
+            lam = fn.nodes[fn.strip(args[-1], 'all')]
+            its = args[:-1] if lam['k'] == 'LambdaExpr' else args
+            if lam['k'] != 'LambdaExpr':
+                lam = None
+            vals = [self.ev(fn.strip(a_, 'all')) for a_ in its]
+            if len(vals) in (3, 4) and all(isinstance(v_, tuple) and v_[0] == 'sit' for v_ in vals) and vals[0][1] == vals[1][1]:
+                s1 = vals[0][1][vals[0][2]:vals[1][2]]
+                if len(vals) == 4:
+                    s2 = vals[2][1][vals[2][2]:vals[3][2]]
+                    if len(s1) != len(s2):
+                        return False
+                else:
+                    # three-iterator form: as many elements of the second range as the first has (a std::string
+                    # is followed by its terminating NUL; further out the behaviour is undefined)
+                    s2 = (vals[2][1] + '\0')[vals[2][2]:vals[2][2] + len(s1)]
+                    if len(s2) < len(s1):
+                        return None
+                if lam is None:
+                    return s1 == s2
+                own = {p_['id'] for p_ in fn.params}
+                refs = {}
+                for x in fn.descendants(lam['id']):
+                    m_ = fn.nodes[x]
+                    if m_['k'] == 'DeclRefExpr' and m_['decl'].get('dk') == 'param' and m_['decl']['id'] not in own:
+                        refs.setdefault(m_['decl']['id'], x)
+                body = [x for x in lam['ch'] if fn.nodes[x]['k'] == 'CompoundStmt']
+                stmts = [fn.nodes[x] for x in fn.nodes[body[0]]['ch']] if len(body) == 1 else []
+                if len(refs) == 2 and len(stmts) == 1 and stmts[0]['k'] == 'ReturnStmt' and stmts[0]['ch']:
+                    ka, kb = [self.R.render(refs[d_]) for d_ in sorted(refs)]
+                    saved = (self.model.get(ka), self.model.get(kb))
+                    try:
+                        for ca, cb in zip(s1, s2):
+                            self.model[ka], self.model[kb] = ord(ca), ord(cb)
+                            v = self.ev(stmts[0]['ch'][0])
+                            if v is None:
+                                return None
+                            if not v:
+                                return False
+                        return True
+                    finally:
+                        for kk_, sv_ in zip((ka, kb), saved):
+                            if sv_ is None:
+                                self.model.pop(kk_, None)
+                            else:
+                                self.model[kk_] = sv_
+            return None
         if k == 'CXXMemberCallExpr' and n['callee']['name'] in ('begin', 'cbegin', 'end', 'cend') and n['callee'].get('classq', '').startswith('std::') and n.get('obj') is not None:
             c_ = self.R.render(n['obj'])
             if n['callee']['name'] in ('begin', 'cbegin'):
@@ -507,6 +566,28 @@ def find_handler(fn, g, v, thrown):
     return None
 
 
+OWN_POSITIONAL = {'frame': '_frames', 'point': '_points', 'subframe': '_subframe', 'channel': '_channels', 'group': '_groups', 'parameter': '_parameters'}
+_checked_cache = {}
+
+
+def checked_positional(prog, usr):
+    """the accessor takes an integer position and reaches the element through vector::at (or throws std::out_of_range itself)"""
+    key = (id(prog), usr)
+    if key in _checked_cache:
+        return _checked_cache[key]
+    f = prog.funcs.get(usr)
+    ok = False
+    if f is not None and f.body is not None and len(f.params) == 1 and f.params[0].get('tc') in ('u', 's'):
+        for c in f.calls():
+            if c['callee']['name'] == 'at' and c['callee'].get('classq') == 'std::vector':
+                ok = True
+        for t in f.all_nodes({'CXXThrowExpr'}):
+            if t.get('throw_t') == 'std::out_of_range':
+                ok = True
+    _checked_cache[key] = ok
+    return ok
+
+
 def walk(fn, model, start=None, stop=None, follow_loops=False, max_steps=5000, state=None, _depth=0):
     """follow the event graph from `start` (default ENTRY); every two-way branch is decided by
     evaluating its condition on the model.  Returns (events, end, undecided_conditions) where events
@@ -554,6 +635,23 @@ def walk(fn, model, start=None, stop=None, follow_loops=False, max_steps=5000, s
                     n.get('obj') is not None and n.get('args'):
                 # bounds-checked access: out_of_range when the model says the index is not below the size
                 sz = model.get(ev.R.render(n['obj']) + '.size')
+                try:
+                    ix = ev.ev(n['args'][0])
+                except OutOfRange:
+                    ix = None
+                if isinstance(sz, int) and isinstance(ix, int) and not isinstance(ix, bool) and ix >= sz:
+                    hv = find_handler(fn, g, v, 'std::out_of_range')
+                    if hv is None:
+                        return out, 'throw:std::out_of_range@%d' % nid, undec
+                    model['#exception'] = 'std::out_of_range'
+                    seen.discard(hv)
+                    v = hv
+                    continue
+            if n['k'] == 'CXXMemberCallExpr' and n['callee']['name'] in OWN_POSITIONAL and n.get('obj') is not None and len(n.get('args', [])) == 1 and \
+                    str(n['callee'].get('class', '')).startswith('ezc3d::') and checked_positional(fn.prog, n['callee'].get('usr')):
+                # the library's own positional accessors are bounds-checked: std::out_of_range when the model says
+                # the position is not below the size of the container they look into
+                sz = model.get('%s.%s.size' % (ev.R.render(n['obj']), OWN_POSITIONAL[n['callee']['name']]))
                 try:
                     ix = ev.ev(n['args'][0])
                 except OutOfRange:
